@@ -13,7 +13,7 @@
    Hypothesis on `inl` in every lemma: the lists are inline trees (ParserShapeInl.inl_tree7), which is what
    inl_parse_inlines_tree7 / inl_postprocess_tree7 prove of the inline-phase model. *)
 From Coq Require Import List NArith Arith Bool Lia.
-From V Require Import Base.Bytes Model.Ast Spec.Shape Spec.HtmlSpec Proofs.ParserShapeInl.
+From V Require Import Base.Bytes Model.Ast Spec.Shape Spec.HtmlSpec Proofs.ParserShapeInl Proofs.ParserShapeFn.
 Import ListNotations.
 Local Open Scope list_scope.
 
@@ -306,95 +306,56 @@ Proof. destruct t as [v sp ch]. unfold s6w. rewrite taskify_node. cbn [nch]. app
 
 (* the table clause: no value moves into or out of the classes Table / TableRow / TableCell, and only Paragraph
    children are removed (a Table has rows, a row has cells) *)
-Definition ctx_of (pv : option node_value) : option node_value := pv.
-
-Lemma s3_go_ctx : forall n pv gv pv' gv',
-  (match pv, pv' with
-   | Some (Table t), Some (Table t') => List.length (t_aligns t) = List.length (t_aligns t')
-   | Some (TableRow _), Some (TableRow _) => True
-   | Some (Table _), _ | _, Some (Table _) | Some (TableRow _), _ | _, Some (TableRow _) => False
-   | _, _ => True
-   end) ->
-  (match gv, gv' with
-   | Some (Table _), Some (Table _) => True
-   | Some (Table _), _ | _, Some (Table _) => False
-   | _, _ => True
-   end) ->
-  s3_go pv gv n = true -> s3_go pv' gv' n = true.
+Lemma taskify_is_row act p h c : is_row_of h (taskify act p c) = is_row_of h c.
 Proof.
-  intros [v sp ch] pv gv pv' gv' Hp Hg H. cbn [s3_go] in H |- *. apply andb_true_iff in H. destruct H as [Hv Hc].
-  apply andb_true_iff. split.
-  - destruct v; try exact Hv; try reflexivity.
-    + destruct pv as [[]|]; try discriminate Hv; destruct pv' as [[]|]; try contradiction. now rewrite <- Hp.
-    + destruct pv as [[]|]; try discriminate Hv; destruct pv' as [[]|]; try contradiction.
-      destruct gv as [[]|]; try discriminate Hv; destruct gv' as [[]|]; try contradiction; reflexivity.
-  - apply forallb_forall. intros c Hin. rewrite forallb_forall in Hc. specialize (Hc c Hin).
-    destruct c as [cv csp cch]. cbn [s3_go] in Hc |- *. apply andb_true_iff in Hc. destruct Hc as [Hcv Hcc].
-    apply andb_true_iff. split; [|exact Hcc].
-    destruct cv; try exact Hcv; try reflexivity.
-    destruct pv as [[]|]; try discriminate Hcv; destruct pv' as [[]|]; try contradiction; exact Hcv.
+  destruct c as [v sp ch]. rewrite taskify_node. unfold is_row_of. cbn [nval]. unfold taskify_val.
+  destruct (ta_symbol (act p)); [destruct v; reflexivity | reflexivity].
 Qed.
+
+Lemma taskify_is_cell act p c : is_cell (taskify act p c) = is_cell c.
+Proof.
+  destruct c as [v sp ch]. rewrite taskify_node. unfold is_cell. cbn [nval]. unfold taskify_val.
+  destruct (ta_symbol (act p)); [destruct v; reflexivity | reflexivity].
+Qed.
+
+Lemma taskify_kids_nopar act path (f : node -> bool) :
+  (forall c p, f (taskify act p c) = f c) -> (forall c, f c = true -> is_par c = false) ->
+  forall l i, forallb f l = true ->
+    forallb f (taskify_kids act path i l) = true /\ List.length (taskify_kids act path i l) = List.length l.
+Proof.
+  intros Hf Hp. induction l as [|c r IH]; intros i H; [split; reflexivity|]. cbn [forallb] in H.
+  apply andb_true_iff in H. destruct H as [Hc Hr]. cbn [taskify_kids]. rewrite (Hp c Hc). cbn [andb forallb List.length].
+  destruct (IH (S i) Hr) as [A B]. rewrite Hf, Hc, A, B. split; reflexivity.
+Qed.
+
+Lemma row_not_par h c : is_row_of h c = true -> is_par c = false.
+Proof. unfold is_row_of, is_par. destruct (nval c); try discriminate; reflexivity. Qed.
+Lemma cell_not_par c : is_cell c = true -> is_par c = false.
+Proof. unfold is_cell, is_par. destruct (nval c); try discriminate; reflexivity. Qed.
+
+Lemma taskify_val_pkind a v : fnp_pkind (Some (taskify_val a v)) = fnp_pkind (Some v).
+Proof. unfold taskify_val. destruct (ta_symbol a); [destruct v; reflexivity | reflexivity]. Qed.
 
 Lemma taskify_s3_go act : forall t path pv gv, s3_go pv gv t = true -> s3_go pv gv (taskify act path t) = true.
 Proof.
   induction t as [v sp ch IH] using node_ind2. intros path pv gv H. rewrite taskify_node.
   cbn [s3_go] in H. apply andb_true_iff in H. destruct H as [Hv Hc].
-  (* the children never are paragraphs under a table or a row *)
-  assert (Hk : (forall t, v <> Table t) -> (forall h, v <> TableRow h) ->
-               forallb (s3_go (Some (taskify_val (act path) v)) pv) (taskify_kids act path 0 ch) = true).
-  { intros NT NR. eapply taskify_kids_forallb; [|exact Hc]. eapply Forall_impl; [|exact IH].
-    intros c Hc' p Hs. apply Hc'. eapply s3_go_ctx; [| |exact Hs].
-    - destruct (taskify_val_class (act path) v) as [->|[(l & s & -> & ->)|(l & l' & -> & ->)]]; try exact I.
-      destruct v; try exact I; [exfalso; eapply NT; reflexivity | exfalso; eapply NR; reflexivity].
-    - destruct pv as [[]|]; exact I. }
-  assert (Hsame : forall l i, forallb (fun c => negb (is_par c)) l = true ->
-            map nval (taskify_kids act path i l) = map (fun c => nval (taskify act [] c)) l /\
-            List.length (taskify_kids act path i l) = List.length l).
-  { induction l as [|c r IHl]; intros i Hn; [split; reflexivity|]. cbn [forallb] in Hn. apply andb_true_iff in Hn.
-    destruct Hn as [Hn1 Hn2]. cbn [taskify_kids]. apply negb_true_iff in Hn1. rewrite Hn1. cbn [andb map List.length].
-    destruct (IHl (S i) Hn2) as [A B]. rewrite A, B. split; [|reflexivity]. f_equal.
-    destruct c as [cv csp cch]. rewrite !taskify_node. cbn [nval].
-    unfold is_par in Hn1. cbn [nval] in Hn1.
-    unfold taskify_val. destruct cv; try reflexivity.
-    all: destruct (ta_symbol (act (path ++ [i]))), (ta_symbol (act [])); try reflexivity. }
-  destruct v; cbn [taskify_val];
-    try (cbn [s3_go]; apply andb_true_iff; split; [first [exact Hv | reflexivity]|];
-         apply Hk; intros; discriminate).
-  - (* List *) destruct (ta_symbol (act path)); cbn [s3_go]; (apply andb_true_iff; split; [reflexivity|]);
-    [|apply Hk; intros; discriminate].
-    specialize (Hk ltac:(intros; discriminate) ltac:(intros; discriminate)). unfold taskify_val in Hk.
-    destruct (ta_symbol (act path)); exact Hk.
-  - (* Item *) destruct (ta_symbol (act path)) eqn:Es; cbn [s3_go]; (apply andb_true_iff; split; [reflexivity|]).
-    + specialize (Hk ltac:(intros; discriminate) ltac:(intros; discriminate)). unfold taskify_val in Hk. rewrite Es in Hk. exact Hk.
-    + specialize (Hk ltac:(intros; discriminate) ltac:(intros; discriminate)). unfold taskify_val in Hk. rewrite Es in Hk. exact Hk.
-  - (* Table *)
-    assert (NP : forallb (fun c => negb (is_par c)) ch = true).
-    { destruct ch as [|h rs]; [reflexivity|]. cbn [table_children_ok] in Hv. apply andb_true_iff in Hv. destruct Hv as [Hh Hrs].
-      cbn [forallb]. apply andb_true_iff. split.
-      - unfold is_row_of in Hh. unfold is_par. destruct (nval h); try discriminate Hh; reflexivity.
-      - apply forallb_forall. intros c Hin. rewrite forallb_forall in Hrs. specialize (Hrs c Hin).
-        unfold is_row_of in Hrs. unfold is_par. destruct (nval c); try discriminate Hrs; reflexivity. }
-    destruct (ta_symbol (act path)); cbn [s3_go]; apply andb_true_iff; split.
-    all: try (eapply taskify_kids_forallb; [|exact Hc]; eapply Forall_impl; [|exact IH]; intros c Hc' p; apply Hc').
-    all: destruct ch as [|h rs]; [discriminate Hv|]; cbn [table_children_ok] in Hv; apply andb_true_iff in Hv; destruct Hv as [Hh Hrs];
-         cbn [forallb] in NP; apply andb_true_iff in NP; destruct NP as [NP1 NP2]; apply negb_true_iff in NP1;
-         cbn [taskify_kids]; rewrite NP1; cbn [andb table_children_ok]; apply andb_true_iff; split.
-    all: try (unfold is_row_of in *; destruct h as [hv hsp hch]; rewrite taskify_node; cbn [nval] in *;
-              destruct hv; try discriminate Hh; unfold taskify_val; destruct (ta_symbol _); exact Hh).
-    all: eapply taskify_kids_forallb; [|exact Hrs]; apply Forall_forall; intros c _ p Hr;
-         unfold is_row_of in *; destruct c as [cv csp cch]; rewrite taskify_node; cbn [nval] in *;
-         destruct cv; try discriminate Hr; unfold taskify_val; destruct (ta_symbol _); exact Hr.
-  - (* TableRow *)
-    destruct (ta_symbol (act path)); cbn [s3_go]; apply andb_true_iff; split.
-    all: try (eapply taskify_kids_forallb; [|exact Hc]; eapply Forall_impl; [|exact IH]; intros c Hc' p; apply Hc').
-    all: destruct pv as [[]|]; try discriminate Hv; apply andb_true_iff in Hv; destruct Hv as [H1 H2];
-         assert (NP : forallb (fun c => negb (is_par c)) ch = true)
-           by (apply forallb_forall; intros c Hin; rewrite forallb_forall in H1; specialize (H1 c Hin);
-               unfold is_cell in H1; unfold is_par; destruct (nval c); try discriminate H1; reflexivity);
-         destruct (Hsame ch 0 NP) as [A B]; rewrite B, H2, andb_true_r;
-         eapply taskify_kids_forallb; [|exact H1]; apply Forall_forall; intros c _ p Hr;
-         unfold is_cell in *; destruct c as [cv csp cch]; rewrite taskify_node; cbn [nval] in *;
-         destruct cv; try discriminate Hr; unfold taskify_val; destruct (ta_symbol _); reflexivity.
+  cbn [s3_go]. apply andb_true_iff. split.
+  - destruct v; try (unfold taskify_val; destruct (ta_symbol (act path)); exact Hv).
+    + (* Table *)
+      assert (E : taskify_val (act path) (Table t) = Table t) by (unfold taskify_val; destruct (ta_symbol (act path)); reflexivity).
+      rewrite E. destruct ch as [|h rs]; [discriminate Hv|]. cbn [table_children_ok] in Hv.
+      apply andb_true_iff in Hv. destruct Hv as [Hh Hrs].
+      cbn [taskify_kids]. rewrite (row_not_par _ _ Hh). cbn [andb table_children_ok]. rewrite taskify_is_row, Hh. cbn [andb].
+      apply (taskify_kids_nopar act path (is_row_of false)); [intros; apply taskify_is_row | apply row_not_par | exact Hrs].
+    + (* TableRow *)
+      assert (E : taskify_val (act path) (TableRow header) = TableRow header) by (unfold taskify_val; destruct (ta_symbol (act path)); reflexivity).
+      rewrite E. destruct pv as [[]|]; try discriminate Hv. apply andb_true_iff in Hv. destruct Hv as [H1 H2].
+      destruct (taskify_kids_nopar act path is_cell (fun c p => taskify_is_cell act p c) cell_not_par ch 0 H1) as [A B].
+      rewrite A, B, H2. reflexivity.
+  - eapply taskify_kids_forallb; [|exact Hc]. eapply Forall_impl; [|exact IH].
+    intros c Hc' p Hs. cbv beta in Hc'.
+    rewrite (fnp_s3_ctx _ _ _ (Some v) pv (taskify_val_pkind _ _) eq_refl). now apply Hc'.
 Qed.
 
 Lemma taskify_s3 act path t : s3 t = true -> s3 (taskify act path t) = true.
